@@ -35,6 +35,12 @@ CHECKS.update({
     'C19': ('model_checking', 'symbolic execution of the emitted package itself (New, NextToken, evalDFA, the emitted two-buffer reader and stack): concrete paddings sweeping the buffer alignments + arbitrary ASCII bytes + concrete tails with multi-byte characters, compared call by call with the reference token stream of the token automaton and the documented skip/discard rules', '§7 C19'),
 })
 
+CHECKS.update({
+    'C09': ('model_checking', 'symbolic execution of nfa.Parse with the real combinator parser and mappers over every printable-ASCII text up to a length bound: acceptance implies that the whole text is a sentence of the documented grammar (a character-level recogniser written as Boolean terms); descending ranges and inverted repetition bounds are rejected with an error naming the problem', '§7 C09'),
+    'C14': ('model_checking', 'symbolic execution of every entry point on arbitrary inputs up to a bound (scanner+reader on arbitrary bytes, ast.Parse and the whole spec.Parse on every token sequence, the pattern compiler on arbitrary strings, main/Run/Generate against an arbitrary environment): every reachable panic, failed assertion, index error, nil dereference, success with a nil result or exhausted step budget is a finding with a model', '§7 C14'),
+    'C16': ('model_checking', 'PARTIAL (operating system modelled): symbolic execution of main.main, Command.Run and Generate/prepare/renderTemplate with the OS, the flag parser, Parse, Generate, isIDValid and template execution as contract-constrained nondeterministic stubs: status 0 and the success message iff every step succeeded and all six files were opened exclusively under <out>/<name>; flags honoured; invalid name rejected before anything is created; no call that could touch pre-existing state', '§7 C16'),
+})
+
 NA = {
     'C07': 'well-formedness checks run on hash tables keyed by fnv hashes and are reachable only through the whole parse; a solver decides nothing there that running the program does not (DESIGN.md §7 C07)',
     'C12': 'structural equality between two finite lists per directive list; no second dimension for a solver to quantify over (DESIGN.md §7 C12)',
